@@ -20,6 +20,10 @@ type gctx struct {
 	ats    []int64 // interesting absolute times (sample timestamps, edges)
 	hasNH  bool
 	core   bool // restrict to the Lean-modelled core language
+	// parameter series kk / kr / kq (see params.go): sample interval and the samples of each
+	piv      int64
+	lookback int64
+	pser     map[string][]ppoint
 }
 
 func fbits(f float64) uint64 { return math.Float64bits(f) }
@@ -351,6 +355,9 @@ func (g *gctx) genV1(depth int, want string) vexpr {
 		}
 		switch y := r.Intn(100); {
 		case y < 8:
+			if r.Chance(50) {
+				return vexpr{&Node{K: "call", Fn: "quantile_over_time", Args: []*Node{g.varParam("q"), m}}, sch, false}
+			}
 			return vexpr{&Node{K: "call", Fn: "quantile_over_time", Args: []*Node{g.genS(depth - 1), m}}, sch, false}
 		case y < 14:
 			return vexpr{&Node{K: "call", Fn: "predict_linear", Args: []*Node{m, g.genS(depth - 1)}}, sch, false}
@@ -372,13 +379,13 @@ func (g *gctx) genV1(depth int, want string) vexpr {
 			// where a tie only permutes series (outermost / under element-wise nodes), which is what the caller does
 			// by never nesting them under another aggregation: see noKSel.
 			g.c.Count("q:" + op)
-			return vexpr{&Node{K: "agg", Fn: op, Grp: grp, GL: gl, Param: num(float64(r.Range(1, 3))), Args: []*Node{in.n}}, in.schema, false}
+			return vexpr{&Node{K: "agg", Fn: op, Grp: grp, GL: gl, Param: g.aggParam("k", depth-1), Args: []*Node{in.n}}, in.schema, false}
 		case y < 36:
-			return vexpr{&Node{K: "agg", Fn: "quantile", Grp: grp, GL: gl, Param: num(h.Pick(r, []float64{0, 0.25, 0.5, 0.9, 1, 1.5, -1})), Args: []*Node{in.n}}, out, false}
+			return vexpr{&Node{K: "agg", Fn: "quantile", Grp: grp, GL: gl, Param: g.aggParam("q", depth-1), Args: []*Node{in.n}}, out, false}
 		case y < 42:
 			return vexpr{&Node{K: "agg", Fn: "count_values", Grp: grp, GL: gl, Param: &Node{K: "str", Strs: []string{"v"}}, Args: []*Node{in.n}}, "other", false}
 		case y < 47:
-			return vexpr{&Node{K: "agg", Fn: "limit_ratio", Grp: grp, GL: gl, Param: num(h.Pick(r, []float64{0.5, -0.5, 0.3, 1, 0.9})), Args: []*Node{in.n}}, in.schema, false}
+			return vexpr{&Node{K: "agg", Fn: "limit_ratio", Grp: grp, GL: gl, Param: g.aggParam("r", depth-1), Args: []*Node{in.n}}, in.schema, false}
 		}
 		return vexpr{&Node{K: "agg", Fn: h.Pick(r, aggPlain), Grp: grp, GL: gl, Args: []*Node{in.n}}, out, false}
 	case x < 58: // vector-scalar
@@ -515,6 +522,9 @@ func (g *gctx) genV1(depth int, want string) vexpr {
 				b = &Node{K: "agg", Fn: "sum", Grp: "by", GL: "le", Args: []*Node{b}}
 				return vexpr{&Node{K: "call", Fn: "histogram_quantile", Args: []*Node{num(h.Pick(r, []float64{0.5, 0.9, 0.99})), b}}, "", false}
 			}
+			if r.Chance(40) {
+				return vexpr{&Node{K: "call", Fn: "histogram_quantile", Args: []*Node{g.varParam("q"), b}}, "a", false}
+			}
 			return vexpr{&Node{K: "call", Fn: "histogram_quantile", Args: []*Node{g.genS(0), b}}, "a", false}
 		}
 		return vexpr{&Node{K: "call", Fn: h.Pick(r, elemFns), Args: []*Node{in.n}}, in.schema, false}
@@ -614,6 +624,7 @@ func genCase(c *h.Ctx, r *h.Rng) []string {
 	lookback := h.PickI64(r, []int64{300_000, 60_000, 45_000, 20_000})
 	g.core = r.Chance(35)
 	g.hasNH = !g.core && r.Chance(40)
+	g.lookback = lookback
 	ops := []string{fmt.Sprintf("cfg %d", lookback)}
 	as := []string{"x", "y", "z"}
 	bs := []string{"p", "q"}
@@ -643,36 +654,52 @@ func genCase(c *h.Ctx, r *h.Rng) []string {
 			ops = append(ops, g.hseries("nh", "a:"+as[i], lookback))
 		}
 	}
+	ops = append(ops, g.paramSeries()...)
 	g.ats = append(g.ats, g.t0, g.t1)
 	nq := int(r.Range(3, 6))
+	// directed queries first: an aggregation whose parameter varies from step to step and crosses its boundaries
+	ndir := 0
+	if r.Chance(70) {
+		ndir = int(r.Range(1, 2))
+	}
 	for k := 0; k < nq; k++ {
 		var tree *Node
-		for {
-			depth := int(r.Range(0, 3))
-			if r.Chance(85) {
-				tree = g.genV(depth, "").n
-			} else {
-				tree = g.genS(depth)
+		var start, end, step, nsteps int64
+		if k < ndir {
+			tree, start, step, nsteps = g.directedQuery()
+			end = start + (nsteps-1)*step
+			if r.Chance(20) {
+				end += r.Range(0, step-1)
 			}
-			if !kSelNested(tree, false) {
-				break
+			c.Count("q:directed-param")
+		} else {
+			for {
+				depth := int(r.Range(0, 3))
+				if r.Chance(85) {
+					tree = g.genV(depth, "").n
+				} else {
+					tree = g.genS(depth)
+				}
+				if !kSelNested(tree, false) {
+					break
+				}
 			}
-		}
-		step := h.PickI64(r, []int64{1000, 5000, 10000, 15000, 15000, 30000, 60000, 60000, 120000, 7000, 61000, 1})
-		nsteps := r.Range(1, 12)
-		if r.Chance(5) {
-			nsteps = 1
-		}
-		start := r.Range(g.t0-60000, g.t1)
-		if r.Chance(40) {
-			start = start / 5000 * 5000
-		}
-		if r.Chance(15) && len(g.ats) > 0 {
-			start = h.PickI64(r, g.ats)
-		}
-		end := start + (nsteps-1)*step
-		if r.Chance(30) {
-			end += r.Range(0, step-1) // end not on the step grid
+			step = h.PickI64(r, []int64{1000, 5000, 10000, 15000, 15000, 30000, 60000, 60000, 120000, 7000, 61000, 1})
+			nsteps = r.Range(1, 12)
+			if r.Chance(5) {
+				nsteps = 1
+			}
+			start = r.Range(g.t0-60000, g.t1)
+			if r.Chance(40) {
+				start = start / 5000 * 5000
+			}
+			if r.Chance(15) && len(g.ats) > 0 {
+				start = h.PickI64(r, g.ats)
+			}
+			end = start + (nsteps-1)*step
+			if r.Chance(30) {
+				end += r.Range(0, step-1) // end not on the step grid
+			}
 		}
 		if g.core {
 			c.Count("q:core")
